@@ -23,7 +23,7 @@ LEVEL_TEXT = ("The kind set and the handler set are finite and enumerated comple
               "follow by structural induction from: same accessor on both operands, symmetric "
               "reflexive transitive leaf comparisons, every Impl member compared, hasher reads a "
               "subset of the compared members."
-              "  Also decided (added after the seeded rounds): strings are compared by content, not by address.")
+              "  Also decided (added after the seeded rounds): strings are compared by content, not by address; called functions are compared by the identity of their handles.")
 LEVEL_NOTE = ("Trusted: clang 14 front end, tool/mpx.cc, the rule module. std::hash<T> of the leaf "
               "types and strcmp are assumed to be functions of the compared value.")
 DESIGN_REF = "DESIGN.md section 4, C18"
